@@ -6,6 +6,7 @@ use h_common::{tool_error, Args};
 
 mod blob;
 mod commit;
+mod formats;
 mod merkle;
 mod util;
 
@@ -17,6 +18,7 @@ fn main() {
     match (mode.as_str(), model.as_str()) {
         ("replay", "blob") => blob::replay(&args),
         ("replay", "commitment") => commit::replay(&args),
+        ("replay", "formats") => formats::replay(&args),
         ("replay", "merkle") => merkle::replay(&args),
         ("replay", "rowproof") => merkle::replay_rowproof(&args),
         _ => tool_error(&format!("unknown mode/model {mode}/{model}")),
